@@ -330,6 +330,13 @@ def case_result(case):
                         vs.append(V("reference-does-not-resolve", file=yml, reference=ref))
             loaded = load_result((unresolved if case["target"] == "symlink" else folder) / "result.yml" if case["target"] != "folder" else folder)
             vs += compare_results(result, loaded, options, "in place")
+            if case.get("resave") and case["target"] == "absolute":
+                # history of the folder: the same result saved there again with another data filter
+                other_options = SavingOptions(data_filter=["residual"], report=False)
+                save_result(result, target, saving_options=other_options, allow_overwrite=True)
+                vs += compare_results(result, load_result(folder / "result.yml"), other_options, "saved again into the same folder with another filter")
+                save_result(result, target, saving_options=options, allow_overwrite=True)
+                vs += compare_results(result, load_result(folder / "result.yml"), options, "saved a third time with the first options")
             vs += check_sources(loaded, folder, "in place")
             # move the folder, load again
             moved = Path(d) / "elsewhere" / "deep" / "moved_run"
@@ -426,6 +433,15 @@ def case_netcdf(case):
         for name in ds.data_vars:
             if name not in ld2 or not np.array_equal(ld2[name].values, ds[name].values):
                 vs.append(V("netcdf-variable-not-bit-equal", variable=str(name), shape=case["shape"], coords=case["coords"], life="second"))
+        # third life: another file is moved onto a path that was loaded before (no glotaran save involved)
+        other = ds.copy(deep=True)
+        other["data"] = other["data"] * 2.0 + 1.0
+        f3 = os.path.join(d, "z", "other.nc")
+        save_dataset(other, f3)
+        os.replace(f3, f)
+        ld3 = load_dataset(f)
+        if not np.array_equal(ld3["data"].values, other["data"].values):
+            vs.append(V("netcdf-load-returns-the-previous-content-of-a-replaced-file", shape=case["shape"], coords=case["coords"]))
         for name in ds.data_vars:
             if name not in ld or ld[name].dims != ds[name].dims or ld[name].dtype != ds[name].dtype or not np.array_equal(ld[name].values, ds[name].values):
                 vs.append(V("netcdf-variable-not-bit-equal", variable=str(name), shape=case["shape"], coords=case["coords"]))
